@@ -61,9 +61,11 @@ func DecodeMeta(hdr BoxHeader, startPos uint64, r io.Reader) (Box, error) {
 func DecodeMetaSR(hdr BoxHeader, startPos uint64, sr bits.SliceReader) (Box, error) {
 	b := MetaBox{}
 	lookAheadData := make([]byte, 4)
-	err := sr.LookAhead(4, lookAheadData)
-	if err != nil {
-		return nil, fmt.Errorf("could not look ahead in Meta box")
+	if hdr.payloadLen() >= 8 { // Otherwise there is no room for a first child box, so nothing to look at
+		err := sr.LookAhead(4, lookAheadData)
+		if err != nil {
+			return nil, fmt.Errorf("could not look ahead in Meta box")
+		}
 	}
 	var offset uint64 = 8
 	if bytes.Equal(lookAheadData, []byte("hdlr")) {
@@ -134,8 +136,10 @@ func (b *MetaBox) EncodeSW(sw bits.SliceWriter) error {
 	if err != nil {
 		return err
 	}
-	versionAndFlags := (uint32(b.Version) << 24) + b.Flags
-	sw.WriteUint32(versionAndFlags)
+	if !b.isQuickTime {
+		versionAndFlags := (uint32(b.Version) << 24) + b.Flags
+		sw.WriteUint32(versionAndFlags)
+	}
 	for _, c := range b.Children {
 		err = c.EncodeSW(sw)
 		if err != nil {
